@@ -6,6 +6,7 @@ import (
 	"fmt"
 	"os"
 	"strings"
+	"time"
 
 	"github.com/dcaiafa/lox/verif/internal/instr"
 	"github.com/dcaiafa/lox/verif/internal/mc"
@@ -385,6 +386,11 @@ func c18Worker(c *mc.Ctx) {
 		c.Stats.HarnessError("stage-3 build (instrumented): %s", strings.Join(head(strings.Split(r.BuildErr, "\n"), 5), " | "))
 		return
 	}
+	if r.Stopped != "" {
+		c.Stats.Inconcl++
+		c.Stats.Cap("the schedule explorer was stopped by the safety net (" + r.Stopped + "): nothing is concluded from it")
+		return
+	}
 	if r.RunErr != "" {
 		c.Stats.HarnessError("stage-3 run: %s %s", r.RunErr, firstLine(r.Stderr))
 		return
@@ -426,10 +432,14 @@ func c18Worker(c *mc.Ctx) {
 		c.Stats.HarnessError("%s", perr)
 		return
 	}
+	st3.RunLimit = 5 * time.Minute // on the unchanged tree the pass takes seconds
 	rr := st3.Run("c18race", rp, c18RaceMain, true, []string{"GORACE=halt_on_error=0"})
 	switch {
 	case rr.BuildErr != "":
 		c.Stats.HarnessError("stage-3 build (-race): %s", firstLine(rr.BuildErr))
+	case rr.Stopped != "" && !strings.Contains(rr.Stderr, "DATA RACE"):
+		c.Stats.Inconcl++
+		c.Stats.Cap("the free-running -race pass was stopped by the safety net (" + rr.Stopped + ") without a race report: nothing is concluded from it")
 	case strings.Contains(rr.Stderr, "DATA RACE"):
 		c.Stats.Violate(mc.Violation{Property: "C18", Check: "C18", Kind: "data-race", Size: 1, Case: mustJSON(map[string]any{"pass": "race"}),
 			Detail: "the race detector reports a data race between concurrently running generated parsers/lexers: " + raceSummary(rr.Stderr)})
